@@ -114,7 +114,8 @@ pub fn judge_slice(section: &Vec<u8>, st: &mut Stats) -> Verdict {
     classify(section, st);
     match crate::engine::guard(|| walk(section, TypeLengthValues::from(&section[..]), "TypeLengthValues::from(&[u8])")) {
         Ok(v) => v,
-        Err(_) => Ok(()), // panics are C03's business
+        // the walk demands concrete items here; a panic is none of them (and is C03's business as well)
+        Err(p) => Err(Fail::new("panic-instead-of-items", shape_tlv(section), "TypeLengthValues::from(&[u8])", format!("the items {:?}", tlv_ref(section).iter().take(4).collect::<Vec<_>>()), format!("panic: {}", p))),
     }
 }
 
@@ -156,7 +157,7 @@ pub fn judge_header(x: &Vec<u8>, st: &mut Stats) -> Verdict {
         Ok(())
     }) {
         Ok(v) => v,
-        Err(_) => Ok(()),
+        Err(p) => Err(Fail::new("panic-instead-of-items", shape_tlv(section), "Header::tlvs()", format!("the items {:?}", tlv_ref(section).iter().take(4).collect::<Vec<_>>()), format!("panic: {}", p))),
     }
 }
 
